@@ -434,4 +434,56 @@ example : cffWidths 0 533 [⟨"a", 0, 0, none, none⟩, ⟨"b", 600, 0, none, no
 example : holdsCffWidths [⟨"a", 0, 0, none, none⟩, ⟨"b", 600, 0, none, none⟩]
     ⟨⟨none, none⟩, [none, some 67]⟩ = false := by decide +kernel
 
+/-! ### degenerate glyph boxes: only the all-zero box is the "no outline" sentinel -/
+
+theorem toInt_intCast (tol : Q) (up : Bool) (k : Int) : toInt tol up (k : Q) = k := by
+  unfold toInt
+  simp only [otRound_intCast]
+  split
+  · rfl
+  · cases up with
+    | true => simp [ceilQ, ← Rat.intCast_neg, Rat.floor_intCast]
+    | false => simp [Rat.floor_intCast]
+
+/-- **C04_box sentinel**: the compiler regards a glyph as having no box exactly when all four rounded
+extrema are 0 (`bounds == EMPTY_BOUNDING_BOX`); any other box, however thin, is kept unchanged. -/
+theorem C04_roundBox_none (tol : Q) (b : RawBox) :
+    roundBox tol b = none ↔
+      (toInt tol false b.xMin = 0 ∧ toInt tol false b.yMin = 0 ∧ toInt tol true b.xMax = 0 ∧ toInt tol true b.yMax = 0) := by
+  unfold roundBox
+  simp only
+  split
+  · rename_i h
+    have h' := eq_of_beq h
+    simp only [Box.mk.injEq] at h'
+    simp [h']
+  · rename_i h
+    constructor
+    · intro hh; cases hh
+    · intro ⟨h1, h2, h3, h4⟩
+      exact absurd (by simp [h1, h2, h3, h4]) h
+
+/-- a glyph whose whole outline is ONE point (x, y) other than the origin keeps the zero-size box
+(x, y, x, y) for every tolerance: its side bearings are x and origin - y, not 0 -/
+theorem C04_roundBox_point (tol : Q) (x y : Int) (h : x ≠ 0 ∨ y ≠ 0) :
+    roundBox tol ⟨(x : Q), (y : Q), (x : Q), (y : Q)⟩ = some ⟨x, y, x, y⟩ := by
+  unfold roundBox
+  simp only [toInt_intCast]
+  split
+  · rename_i hh
+    have h' := eq_of_beq hh
+    simp only [Box.mk.injEq] at h'
+    omega
+  · rfl
+
+/-- ... and so the hmtx row of such a glyph carries lsb = x -/
+theorem C04_hmtx_point (tol : Q) (x y : Int) (h : x ≠ 0 ∨ y ≠ 0) (nm : String) (w ht : Q) (vo : Option Q) :
+    lsbOf ⟨nm, w, ht, vo, (some (⟨(x : Q), (y : Q), (x : Q), (y : Q)⟩ : RawBox)).bind (roundBox tol)⟩ = x ∧
+    topOf ⟨nm, w, ht, vo, (some (⟨(x : Q), (y : Q), (x : Q), (y : Q)⟩ : RawBox)).bind (roundBox tol)⟩ = y := by
+  simp only [Option.bind_some, C04_roundBox_point tol x y h, lsbOf, topOf, and_self]
+
+example : roundBox (1/2) ⟨1100, 900, 1100, 900⟩ = some ⟨1100, 900, 1100, 900⟩ := by
+  have := C04_roundBox_point (1/2) 1100 900 (by omega); simpa using this
+example : roundBox (1/2) ⟨0, 0, 0, 0⟩ = none := by decide +kernel
+
 end Ufo2ft.C04
